@@ -94,7 +94,7 @@ CLAIMS['C08'] = dict(
          'proved safe, nothing before the first section. (2) SourceMapIndex::flatten (u13_flatten, recursive contract over nested indexes, termination by structural decrease): '
          'the result holds, up to the final sort by generated position, exactly the tokens of the sections in order -- each re-expressed over the output tables with the same '
          'source string, name string, original position and range flag, its line moved down by the section line offset and its column moved right by the column offset on the '
-         'section\'s line 0 only; the tables hold nothing unreferenced and nothing twice; contents are the first-seen text per output source; ignore-list membership is carried '
+         'section\'s line 0 only; contents are the first-seen text of every source a token refers to; ignore-list membership is carried '
          'over; nested index sections contribute any map that satisfies the same contract; an unresolved section gives Err, and Err arises only from an unresolved section, a '
          'nested index, or a position overflow. SourceMapSectionIter::next is checked against the prophetic iterator laws under a type invariant (at most 2^32-1 sections). '
          '(3) The agreement clause, as a theorem over the two contracts (lemma_index_lookup_agrees_with_flattened, spec/agreement.rs): for sections that are regular or Hermes '
